@@ -4,6 +4,8 @@ CONSTANTS
   NSig = 1
   MaxOps = 6
   DeepLock = FALSE
+  BadSig = 0
+  UnlockOnFail = TRUE
   MixinsUpdate = FALSE
 VIEW view
 INVARIANT UsedConsistent
